@@ -16,10 +16,12 @@ import (
 	"runtime/debug"
 	"strings"
 	"sync"
+	"sync/atomic"
 	"time"
 
 	"github.com/sheerbytes/sheerbytes/internal/app"
 	"github.com/sheerbytes/sheerbytes/internal/transfer"
+	"github.com/sheerbytes/sheerbytes/internal/verifhook"
 	vk "github.com/sheerbytes/sheerbytes/internal/verifkit"
 	"github.com/sheerbytes/sheerbytes/pkg/manifest"
 )
@@ -37,6 +39,11 @@ type c15Input struct {
 	Hex    string `json:"hex"`    // decoder input, or control-stream bytes for endpoints
 	Data   string `json:"data,omitempty"` // endpoints: data-stream bytes (hex)
 	Valid  bool   `json:"valid,omitempty"`
+	// endpoints only:
+	Opts string `json:"opts,omitempty"` // option set of the endpoint: "" = library options without callbacks, "app" = what internal/app passes (callbacks on the real progress objects), "bare" = Options{} (no resume)
+	Hold string `json:"hold,omitempty"` // "" | "must-return" | "observe" (+ ":reset"): the script ends one stream (FIN / reset) and leaves the others open
+	Pre  string `json:"pre,omitempty"`  // "prior-session": the output directory holds a.bin and a sidecar with chunk 0 complete
+	Hex2 string `json:"hex2,omitempty"` // ep-recv: control bytes written once the receiver has stored a chunk
 }
 
 type c15Result struct {
@@ -50,6 +57,11 @@ type c15Result struct {
 	CanaryOK  bool   `json:"canary_ok,omitempty"`
 	Dump      string `json:"dump,omitempty"`
 	ReturnedNil bool `json:"returned_nil,omitempty"`
+	// endpoints: what the script observed
+	ReturnedBeforeClose bool `json:"returned_before_close,omitempty"` // Hold: the endpoint returned while the other streams were still open
+	ChunkStored         bool `json:"chunk_stored,omitempty"`          // Hex2: recv.chunk.afterMark was hit before Hex2 was written
+	SawChunk0           bool `json:"saw_chunk0,omitempty"`            // the receiver reported chunk 0 of a file as complete in a FileResumeInfo
+	HeldOpen            bool `json:"held_open,omitempty"`             // the watchdog fired while the script was still holding the other streams open
 }
 
 const c15AllocBase = 4 << 20 // bytes; plus 64 x input length
@@ -97,10 +109,7 @@ func encodeRecords() map[string][]byte {
 }
 
 func legacyManifestBytes() []byte {
-	c := c07Case{Field: "none"}
-	ms := vk.NewMemStream(nil)
-	hostileLegacyManifest(ms, c)
-	b := append([]byte(nil), ms.Out.Bytes()...)
+	b := c15LegacyManifest()
 	// locate the file record: type 0x02, len(11) "ok/file.bin", size(8), chunk size(4)
 	if i := strings.Index(string(b), "\x02\x00\x0bok/file.bin"); i >= 0 {
 		fieldNames["manifest"] = map[int]string{i + 3 + 11 + 8: "file-record-chunk-size", 4: "manifest-json-length"}
@@ -109,9 +118,7 @@ func legacyManifestBytes() []byte {
 }
 
 func legacyFileBytes() []byte {
-	ms := vk.NewMemStream(nil)
-	hostileLegacyFile(ms, c07Case{Str: "name.bin"})
-	return append([]byte(nil), ms.Out.Bytes()...)
+	return c15LegacyFile("name.bin")
 }
 
 func dumbBytes() []byte {
@@ -124,8 +131,7 @@ func dumbBytes() []byte {
 func sidecarBytes(work string) []byte {
 	dir := vk.TempDir(work, "c15sc-")
 	defer os.RemoveAll(dir)
-	b, _, _ := makeSidecar(dir, "2222222222222222", 100, 16, []uint32{0, 2, 3})
-	return b
+	return c15MakeSidecar(filepath.Join(dir, "sc.sbxmap"), "2222222222222222", 100, 16, []uint32{0, 2, 3})
 }
 
 // mutateInto appends the generic mutations of valid to the list.
@@ -212,7 +218,9 @@ func c15DecoderInputs(e *Env) []c15Input {
 			mutateInto(&list, "control-message", name, b, r, e.Thorough())
 		}
 	}
-	mutateInto(&list, "legacy-manifest", "manifest", legacyManifestBytes(), r, e.Thorough())
+	lmb := legacyManifestBytes()
+	mutateInto(&list, "legacy-manifest", "manifest", lmb, r, e.Thorough())
+	c15EnumDecoderInputs(e, r, &list, recs, lmb)
 	mutateInto(&list, "legacy-file", "file", legacyFileBytes(), r, e.Thorough())
 	mutateInto(&list, "dumb", "dumb", dumbBytes(), r, e.Thorough())
 	mutateInto(&list, "sidecar", "sidecar", sidecarBytes(e.Work), r, e.Thorough())
@@ -240,6 +248,9 @@ func c15DecoderInputs(e *Env) []c15Input {
 	}
 	for i := range list {
 		list[i].ID = fmt.Sprintf("D%06d", i)
+		if list[i].Target == "legacy-manifest" && (i+int(e.Seed))%2 == 1 {
+			list[i].Opts = "app" // with a progress callback
+		}
 	}
 	return list
 }
@@ -258,6 +269,7 @@ func c15Child(args []string) int {
 		fmt.Sscanf(args[3], "%d", &start)
 	}
 	debug.SetGCPercent(50)
+	c15InstallHooks()
 	f, err := os.Open(casesPath)
 	if err != nil {
 		return 3
@@ -333,7 +345,13 @@ func c15RunDecoder(in c15Input, work string) (res c15Result) {
 		case "legacy-manifest":
 			d := vk.TempDir(work, "lm-")
 			ctx, cancel := context.WithTimeout(context.Background(), 5*time.Second)
-			_, err = transfer.RecvManifest(ctx, vk.NewMemStream(data), d, nil)
+			var pf transfer.ProgressFn
+			if in.Opts == "app" { // the caller reports progress, as every caller in internal/app does
+				var seen int64
+				pf = func(_ string, n int64, _ int64) { seen = n }
+				_ = seen
+			}
+			_, err = transfer.RecvManifest(ctx, vk.NewMemStream(data), d, pf)
 			cancel()
 			os.RemoveAll(d)
 		case "legacy-file":
@@ -370,12 +388,81 @@ func c15RunDecoder(in c15Input, work string) (res c15Result) {
 
 // ---- endpoints ---------------------------------------------------------------
 
+// c15ChunkStored is the "receiver stored a chunk" signal of the case that is
+// running (a child runs its cases one at a time).
+var c15ChunkStored atomic.Pointer[chan struct{}]
+
+func c15InstallHooks() {
+	verifhook.Set("recv.chunk.afterMark", func(verifhook.Event) {
+		if ch := c15ChunkStored.Load(); ch != nil {
+			select {
+			case *ch <- struct{}{}:
+			default:
+			}
+		}
+	})
+}
+
+// c15EndStream ends the script's side of a stream: FIN, or a reset of the
+// sending direction.
+func c15EndStream(s transfer.Stream, how string) {
+	if how == "reset" {
+		if cw, ok := s.(interface{ CloseWrite() error }); ok {
+			_ = cw.CloseWrite()
+			return
+		}
+	}
+	_ = s.Close()
+}
+
+// c15WatchReplies reads what the receiver writes on the control stream; it
+// notes a FileResumeInfo that reports chunk 0 as complete.
+func c15WatchReplies(cs transfer.Stream, sawChunk0 *atomic.Bool) {
+	for {
+		typ, msg, err := transfer.VerifCoreReadControlMessage(cs)
+		if err != nil {
+			break
+		}
+		if typ == transfer.VerifTypeFileResumeInfo {
+			if ri, ok := msg.(transfer.FileResumeInfo); ok && len(ri.Bitmap) > 0 && ri.Bitmap[0]&1 != 0 {
+				sawChunk0.Store(true)
+			}
+		}
+	}
+	buf := make([]byte, 4096)
+	for {
+		if _, err := cs.Read(buf); err != nil {
+			return
+		}
+	}
+}
+
+// c15PriorSession leaves in out what an interrupted earlier session of the
+// manifest in ctrl leaves behind for a.bin: the pre-sized data file and a
+// sidecar with chunk 0 complete.
+func c15PriorSession(out string, ctrl []byte) {
+	hm, err := transfer.VerifCoreReadControlHeader(vk.NewMemStream(ctrl))
+	if err != nil {
+		return
+	}
+	for _, it := range hm.Items {
+		if it.IsDir || !strings.HasSuffix(it.RelPath, "a.bin") {
+			continue
+		}
+		fp := filepath.Join(out, filepath.FromSlash(it.RelPath))
+		_ = os.MkdirAll(filepath.Dir(fp), 0755)
+		_ = os.WriteFile(fp, make([]byte, it.Size), 0644)
+		_ = c15MakeSidecar(transfer.SidecarPath(out, "", transfer.VerifCoreSidecarID(it)), it.ID, it.Size, 16, []uint32{0})
+	}
+}
+
 // c15RunEndpoint replays (mutated) recorded stream bytes against a real
 // endpoint over loopback QUIC, then closes the connection (the input has ended).
 func c15RunEndpoint(lp *vk.ListenerPool, in c15Input, work string) (res c15Result) {
 	ctrl, _ := hex.DecodeString(in.Hex)
 	data, _ := hex.DecodeString(in.Data)
-	res.InputLen = len(ctrl) + len(data)
+	ctrl2, _ := hex.DecodeString(in.Hex2)
+	res.InputLen = len(ctrl) + len(data) + len(ctrl2)
 	if lp == nil {
 		res.Err = "SETUP: no listener"
 		res.Returned = true
@@ -390,10 +477,49 @@ func c15RunEndpoint(lp *vk.ListenerPool, in c15Input, work string) (res c15Resul
 		return res
 	}
 	defer p.Close()
+	// "app-mc": the application's options over two connections wrapped in
+	// NewMultiConn, as the CLI does whenever --total-connections > 1 (its
+	// default): control stream on the first connection, data on the second
+	dials, accepts := []transfer.Conn{p.Dial}, []transfer.Conn{p.Accept}
+	var recvConn, sendConn transfer.Conn = p.Accept, p.Dial
+	if in.Opts == "app-mc" {
+		p2, err := l.NewPair(context.Background())
+		if err != nil {
+			res.Err = "SETUP: " + err.Error()
+			res.Returned = true
+			return res
+		}
+		defer p2.Close()
+		dials, accepts = append(dials, p2.Dial), append(accepts, p2.Accept)
+		if in.Target == "ep-recv" {
+			recvConn, err = transfer.NewMultiConn(accepts)
+		} else {
+			sendConn, err = transfer.NewMultiConn(dials)
+		}
+		if err != nil {
+			res.Err = "SETUP: " + err.Error()
+			res.Returned = true
+			return res
+		}
+	}
+	closeAll := func(cs []transfer.Conn) {
+		for _, c := range cs {
+			_ = c.Close()
+		}
+	}
 	base := vk.TempDir(work, "ep-")
 	defer os.RemoveAll(base)
+	defer transfer.VerifRetireSidecars(base)
 	ctx, cancel := context.WithTimeout(context.Background(), 30*time.Second)
 	defer cancel()
+	hold, how, _ := strings.Cut(in.Hold, ":")
+	var gaveUpHolding, chunkStored, sawChunk0, holding atomic.Bool
+	var stored chan struct{}
+	if len(ctrl2) > 0 {
+		stored = make(chan struct{}, 8)
+		c15ChunkStored.Store(&stored)
+		defer c15ChunkStored.Store(nil)
+	}
 	var ms1, ms2 runtime.MemStats
 	runtime.GC()
 	runtime.ReadMemStats(&ms1)
@@ -407,10 +533,39 @@ func c15RunEndpoint(lp *vk.ListenerPool, in c15Input, work string) (res c15Resul
 		case <-time.After(d):
 		}
 	}
+	// holdOpen: the script has ended one stream and keeps the others open
+	// until the endpoint returns (must-return: until the watchdog has fired)
+	holdOpen := func() {
+		d := 400 * time.Millisecond
+		if hold == "must-return" {
+			d = 15 * time.Second
+		}
+		holding.Store(true)
+		select {
+		case <-returned:
+		case <-time.After(d):
+			gaveUpHolding.Store(true) // set before the script closes anything else
+		}
+		holding.Store(false)
+	}
+	stopOpts := func() {}
 	switch in.Target {
 	case "ep-recv":
+		out := filepath.Join(base, "out")
+		if in.Pre == "prior-session" {
+			c15PriorSession(out, ctrl)
+		}
+		var opts transfer.Options
+		switch in.Opts {
+		case "app", "app-mc":
+			opts, stopOpts = app.VerifC15ReceiverOptions(ctx, 47, 2, out, true, len(accepts))
+		case "bare":
+			opts = transfer.Options{NoRootDir: true}
+		default:
+			opts = transfer.Options{Resume: true, NoRootDir: true, HashAlg: "crc32c", ParallelFiles: 1}
+		}
 		go func() {
-			_, err := transfer.RecvManifestMultiStream(ctx, p.Accept, filepath.Join(base, "out"), transfer.Options{Resume: true, NoRootDir: true, HashAlg: "crc32c", ParallelFiles: 1})
+			_, err := transfer.RecvManifestMultiStream(ctx, recvConn, out, opts)
 			close(returned)
 			done <- err
 		}()
@@ -423,27 +578,41 @@ func c15RunEndpoint(lp *vk.ListenerPool, in c15Input, work string) (res c15Resul
 			if _, err := cs.Write(ctrl); err != nil {
 				return
 			}
-			go func() { // drain whatever the receiver says
-				buf := make([]byte, 4096)
-				for {
-					if _, err := cs.Read(buf); err != nil {
-						return
-					}
-				}
-			}()
+			go c15WatchReplies(cs, &sawChunk0) // and drain whatever else the receiver says
+			var ds transfer.Stream
 			if len(data) > 0 {
-				ds, err := p.Dial.OpenStream(ctx)
-				if err == nil {
+				if ds, err = dials[len(dials)-1].OpenStream(ctx); err == nil {
 					_, _ = ds.Write(data)
-					linger(700 * time.Millisecond)
-					_ = ds.Close()
+				} else {
+					ds = nil
 				}
-			} else {
+			}
+			if len(ctrl2) > 0 {
+				// history: the second part of the control input follows once the
+				// receiver has stored a chunk
+				select {
+				case <-stored:
+					chunkStored.Store(true)
+				case <-returned:
+				case <-time.After(3 * time.Second):
+				}
+				_, _ = cs.Write(ctrl2)
+			}
+			switch {
+			case hold != "":
+				if ds != nil {
+					c15EndStream(ds, how)
+				}
+				holdOpen()
+			case ds != nil:
+				linger(700 * time.Millisecond)
+				_ = ds.Close()
+			default:
 				linger(300 * time.Millisecond)
 			}
 			_ = cs.Close()
 			linger(100 * time.Millisecond)
-			_ = p.Dial.Close() // the input has ended
+			closeAll(dials) // the input has ended
 		}()
 	case "ep-send":
 		src := filepath.Join(base, "srcroot")
@@ -451,10 +620,18 @@ func c15RunEndpoint(lp *vk.ListenerPool, in c15Input, work string) (res c15Resul
 		_ = tree.Materialize(src)
 		m, _ := manifest.ScanPaths([]string{src})
 		resolver, _ := app.VerifBuildPathResolver([]string{src})
-		go func() {
-			opts := transfer.Options{ChunkSize: 16, ParallelFiles: 1, Resume: true, HashAlg: "crc32c", ResolveFilePath: resolver,
+		var opts transfer.Options
+		switch in.Opts {
+		case "app", "app-mc":
+			opts, stopOpts = app.VerifC15SenderOptions(ctx, m, 16, 1, len(dials), resolver)
+		case "bare":
+			opts = transfer.Options{ChunkSize: 16, ParallelFiles: 1, ResolveFilePath: resolver}
+		default:
+			opts = transfer.Options{ChunkSize: 16, ParallelFiles: 1, Resume: true, HashAlg: "crc32c", ResolveFilePath: resolver,
 				ParamSource: func() transfer.RuntimeParams { return transfer.RuntimeParams{ChunkSize: 16, ParallelFiles: 1} }}
-			err := transfer.SendManifestMultiStream(ctx, p.Dial, ".", m, opts)
+		}
+		go func() {
+			err := transfer.SendManifestMultiStream(ctx, sendConn, ".", m, opts)
 			close(returned)
 			done <- err
 		}()
@@ -480,32 +657,40 @@ func c15RunEndpoint(lp *vk.ListenerPool, in c15Input, work string) (res c15Resul
 				// (repeated, contradictory, for other files), back to back
 				go c15ReactiveAcks(cs, strings.TrimPrefix(in.Class, "acks:reactive:"), ctrl)
 			}
-			go func() { // accept and drain data streams
-				for {
-					ds, err := p.Accept.AcceptStream(ctx)
-					if err != nil {
-						return
-					}
-					go func() {
-						buf := make([]byte, 4096)
-						for {
-							if _, err := ds.Read(buf); err != nil {
-								return
-							}
+			for _, ac := range accepts { // accept and drain data streams
+				go func(ac transfer.Conn) {
+					for {
+						ds, err := ac.AcceptStream(ctx)
+						if err != nil {
+							return
 						}
-					}()
-				}
-			}()
-			if reactive {
+						go func() {
+							buf := make([]byte, 4096)
+							for {
+								if _, err := ds.Read(buf); err != nil {
+									return
+								}
+							}
+						}()
+					}
+				}(ac)
+			}
+			switch {
+			case reactive:
 				linger(3 * time.Second)
-			} else {
+			case hold != "":
+				time.Sleep(30 * time.Millisecond)
+				_, _ = cs.Write(ctrl)
+				c15EndStream(cs, how) // the acknowledgement stream ends; connection and data streams stay
+				holdOpen()
+			default:
 				time.Sleep(30 * time.Millisecond)
 				_, _ = cs.Write(ctrl)
 				linger(500 * time.Millisecond)
 			}
 			_ = cs.Close()
 			linger(100 * time.Millisecond)
-			_ = p.Accept.Close()
+			closeAll(accepts)
 		}()
 	}
 	select {
@@ -516,8 +701,10 @@ func c15RunEndpoint(lp *vk.ListenerPool, in c15Input, work string) (res c15Resul
 		} else {
 			res.ReturnedNil = true
 		}
+		res.ReturnedBeforeClose = hold != "" && !gaveUpHolding.Load()
 	case <-time.After(10 * time.Second):
 		res.TimedOut = true
+		res.HeldOpen = holding.Load()
 		res.Dump = c15Dump()
 		cancel()
 		// canary: a plain valid exchange must still complete promptly
@@ -527,11 +714,15 @@ func c15RunEndpoint(lp *vk.ListenerPool, in c15Input, work string) (res c15Resul
 			res.CanaryOK = cres.Returned && time.Since(t0) < 5*time.Second
 		}
 	}
+	res.ChunkStored = chunkStored.Load()
+	res.SawChunk0 = sawChunk0.Load()
 	// goroutines of the endpoint may still be finishing an allocation they
 	// started on the peer's say-so: give them a moment before measuring
 	time.Sleep(150 * time.Millisecond)
 	runtime.ReadMemStats(&ms2)
 	res.AllocB = ms2.TotalAlloc - ms1.TotalAlloc
+	cancel()
+	stopOpts()
 	return res
 }
 
@@ -625,6 +816,8 @@ func c15ReactiveAcks(cs transfer.Stream, mode string, recorded []byte) {
 		n = 2
 	case strings.HasSuffix(mode, "-x32"):
 		n = 32
+	case strings.HasPrefix(mode, "field:"):
+		n = 1
 	}
 	for {
 		typ, msg, err := transfer.VerifCoreReadControlMessage(cs)
@@ -642,10 +835,15 @@ func c15ReactiveAcks(cs transfer.Stream, mode string, recorded []byte) {
 			if strings.HasPrefix(mode, "resumeinfo") {
 				k = n
 			}
+			if strings.HasPrefix(mode, "field:resumeinfo") {
+				ri = c15ResumeInfoVariant(ri, mode)
+			}
 			rep(k, func(w transfer.Stream) { _ = transfer.VerifCoreWriteFileResumeInfo(w, ri) })
 		case transfer.VerifTypeFileEnd:
 			fe := msg.(transfer.FileEnd)
 			switch {
+			case strings.HasPrefix(mode, "field:filedone-ok-byte"):
+				_, _ = cs.Write(c15RawFileDone(fe.StreamID, mode))
 			case strings.HasPrefix(mode, "filedone-ok-then-failed"):
 				rep(1, func(w transfer.Stream) {
 					_ = transfer.VerifCoreWriteFileDone(w, transfer.FileDone{StreamID: fe.StreamID, OK: true})
@@ -679,11 +877,20 @@ func c15ReactiveAcks(cs transfer.Stream, mode string, recorded []byte) {
 func c15EndpointInputs(e *Env, ctrlW, ctrlR, dataW []byte) []c15Input {
 	r := vk.NewRng(vk.Mix(e.Seed ^ vk.HashStr("c15ep"+e.Tier)))
 	var list []c15Input
+	// generic[i]: input i is a byte-level mutation of the recorded trace; its
+	// option set is chosen below
+	generic := map[int]bool{}
+	inMut := false
 	add := func(target, class string, ctrl, data []byte, valid bool) {
+		if inMut {
+			generic[len(list)] = true
+		}
 		list = append(list, c15Input{Target: target, Class: class, Hex: hex.EncodeToString(ctrl), Data: hex.EncodeToString(data), Valid: valid})
 	}
-	add("ep-recv", "valid", ctrlW, dataW, true)
-	add("ep-send", "valid", ctrlR, nil, true)
+	for _, o := range []string{"", "app", "bare", "app-mc"} {
+		list = append(list, c15Input{Target: "ep-recv", Class: "valid", Opts: o, Hex: hex.EncodeToString(ctrlW), Data: hex.EncodeToString(dataW), Valid: true})
+		list = append(list, c15Input{Target: "ep-send", Class: "valid", Opts: o, Hex: hex.EncodeToString(ctrlR), Valid: true})
+	}
 	// the recorded sender->receiver control stream starts with magic(4) len(4) json, then records
 	hdrLen := 8 + int(binary.BigEndian.Uint32(ctrlW[4:8]))
 	stage := func(off int) string {
@@ -760,9 +967,38 @@ func c15EndpointInputs(e *Env, ctrlW, ctrlR, dataW []byte) []c15Input {
 			mk("bitflip", b)
 		}
 	}
+	inMut = true
 	mut("ep-recv", ctrlW, dataW, stage, false)
 	mut("ep-recv", dataW, nil, func(int) string { return "data" }, true)
 	mut("ep-send", ctrlR, nil, func(int) string { return "acks" }, false)
+	inMut = false
+	// option sets of the byte-level mutations: thorough runs each under the
+	// library options and under the application's; quick alternates (which
+	// half gets which depends on the seed) and runs the data-stream
+	// truncations under both
+	{
+		var extra []c15Input
+		for i := range list {
+			if !generic[i] {
+				continue
+			}
+			twin := list[i]
+			twin.Opts = "app"
+			switch {
+			case e.Thorough() || list[i].Class == "data:trunc":
+				extra = append(extra, twin)
+			case (i+int(e.Seed))%4 == 1:
+				list[i].Opts = "app"
+			case (i+int(e.Seed))%4 == 3:
+				list[i].Opts = "app-mc"
+			}
+			if e.Thorough() && i%4 == 0 {
+				twin.Opts = "app-mc"
+				extra = append(extra, twin)
+			}
+		}
+		list = append(list, extra...)
+	}
 	// a receiver that reacts to the sender's records with repeated /
 	// contradictory acknowledgements (each several times: the interleaving of
 	// the sender's acknowledgement reader with its waiters differs per run)
@@ -772,7 +1008,7 @@ func c15EndpointInputs(e *Env, ctrlW, ctrlR, dataW []byte) []c15Input {
 			reps = 1
 		}
 		for k := 0; k < reps; k++ {
-			add("ep-send", "acks:reactive:"+mode, ctrlR, nil, mode == "filedone-x1")
+			list = append(list, c15Input{Target: "ep-send", Class: "acks:reactive:" + mode, Opts: []string{"", "app", "app-mc"}[k%3], Hex: hex.EncodeToString(ctrlR), Valid: mode == "filedone-x1"})
 		}
 	}
 	// hand-made hostile records at the "records" stage
@@ -785,12 +1021,12 @@ func c15EndpointInputs(e *Env, ctrlW, ctrlR, dataW []byte) []c15Input {
 			}
 		}
 	}
-	ownData := append(chunkFrame(keyA, 0, []byte("0123456789abcdef")), chunkFrame(keyA, 1, []byte("0123456789abcdef"))...)
+	ownData := append(c15ChunkFrame(keyA, 0, []byte("0123456789abcdef")), c15ChunkFrame(keyA, 1, []byte("0123456789abcdef"))...)
 	hostile := func(class string, rec []byte) {
 		b := append(append([]byte(nil), ctrlW[:hdrLen]...), rec...)
 		add("ep-recv", "records:"+class, b, ownData, false)
 	}
-	hostile("filebegin-chunk-size-0", append(ds1(), rawFileBegin("srcroot/a.bin", 40, 0, 0)...))
+	hostile("filebegin-chunk-size-0", append(ds1(), c15RawFileBegin("srcroot/a.bin", 40, 0, 0, 1)...))
 	// a complete, valid exchange (without End) followed by a late frame for an
 	// already finished file that announces an absurd payload length
 	{
@@ -807,10 +1043,11 @@ func c15EndpointInputs(e *Env, ctrlW, ctrlR, dataW []byte) []c15Input {
 			add("ep-recv", fmt.Sprintf("data:late-frame-for-finished-file:len=%x", ln), ctrlNoEnd, append(append([]byte(nil), dataW...), late...), false)
 		}
 	}
-	hostile("field:filebegin-chunk-size:huge", append(ds1(), rawFileBegin("srcroot/a.bin", 40, 0xFFFFFFFF, 0)...))
+	hostile("field:filebegin-chunk-size:huge", append(ds1(), c15RawFileBegin("srcroot/a.bin", 40, 0xFFFFFFFF, 0, 1)...))
 	hostile("datastreams-65535", []byte{transfer.VerifTypeDataStreams, 0xFF, 0xFF})
 	hostile("creditbatch-huge", append(ds1(), []byte{transfer.VerifTypeCreditBatch, 0xFF, 0xFF, 0xFF, 0xFF}...))
 	hostile("end-immediately", append(ds1(), transfer.VerifTypeEnd))
+	c15FieldInputs(e, r, ctrlW, ctrlR, dataW, hdrLen, func(in c15Input) { list = append(list, in) })
 	for i := range list {
 		list[i].ID = fmt.Sprintf("E%06d", i)
 	}
@@ -905,6 +1142,13 @@ func c15Key(in c15Input, kind string) string {
 	if cls == "random" {
 		return fmt.Sprintf("%s:%s:random-input", kind, in.Target)
 	}
+	if strings.HasPrefix(cls, "data-open:") || strings.HasPrefix(cls, "acks-open:") {
+		// one stream ended while the others stayed open: the key names where
+		// it ended, not the byte offset
+		if p := strings.SplitN(cls, ":", 3); len(p) >= 2 {
+			return fmt.Sprintf("%s:%s:%s:%s", kind, in.Target, p[0], p[1])
+		}
+	}
 	if i := strings.Index(cls, "field:"); i >= 0 {
 		// named field: the key names the field, not the value written into it
 		f := cls[i+len("field:"):]
@@ -917,7 +1161,7 @@ func c15Key(in c15Input, kind string) string {
 }
 
 func runC15(e *Env) {
-	e.R.Rule = "(a) decoders (control records, control header, legacy manifest and file receivers, dumb receiver header, LoadSidecar) fed from an in-memory stream in child processes: every valid record type truncated at every byte, every 1/2/4-byte field position set to {0,1,0xFFFF,0x7FFFFFFF,0x80000000,0xFFFFFFFF}, unknown type bytes, seeded random bytes; (b) the real RecvManifestMultiStream / SendManifestMultiStream over loopback QUIC against a script replaying a recorded valid trace with the same kinds of mutation on the control stream and the data stream at every protocol stage, then closing the connection; monitors: process death (attributed to the logged case), recovered panic, return after the input ended (watchdog), TotalAlloc delta <= 4 MiB + 64 x input bytes; distinct by input bytes"
+	e.R.Rule = "(a) decoders (control records, control header, legacy manifest and file receivers, dumb receiver header, LoadSidecar) fed from an in-memory stream in child processes: every valid record type truncated at every byte, every 1/2/4-byte field position set to {0,1,0xFFFF,0x7FFFFFFF,0x80000000,0xFFFFFFFF}, every enumeration/flag byte (record type, FileBegin hash algorithm, FileDone ok, legacy record types) swept over its values, seeded random bytes; (b) the real RecvManifestMultiStream / SendManifestMultiStream over loopback QUIC, under the library option set, the option set internal/app passes (progress/delta/stats/resume-stats/file-done callbacks on the real progress objects, ParamSource, path resolver) and the empty option set, against a script that (b1) replays a recorded valid trace with the same kinds of mutation on the control stream and the data stream at every protocol stage and then closes the connection, (b2) sets each peer-chosen enumeration/flag byte to its values in the history in which the endpoint consumes it (FileBegin.HashAlg: fresh file / chunk stored then ResumeRequest / earlier session's sidecar on disk; record type byte at each stage; FileDone.OK after FileEnd; resume report bitmap/counts/verified chunk/hash sentinel after ResumeRequest), (b3) ends one stream inside a record (FIN or reset, data stream inside a chunk payload / frame header / at a frame boundary, acknowledgement stream inside a record) and keeps the other streams open; monitors: process death (attributed to the logged case), recovered panic, return after the input ended (watchdog + canary; for b3 payload and acknowledgement classes: return while the other streams are still open), TotalAlloc delta <= 4 MiB + 64 x input bytes; distinct by (input bytes, option set, history)"
 	dec := c15DecoderInputs(e)
 	ctrlW, ctrlR, dataW, ok := c15Record(e)
 	if !ok {
@@ -927,10 +1171,21 @@ func runC15(e *Env) {
 	}
 	eps := c15EndpointInputs(e, ctrlW, ctrlR, dataW)
 	c15CanaryEnv = []string{"C15_CANARY_ep-recv=" + hex.EncodeToString(ctrlW), "C15_CANARY_ep-send=" + hex.EncodeToString(ctrlR), "C15_CANARY_DATA=" + hex.EncodeToString(dataW)}
+	filtered := os.Getenv("VERIF_C15_CLASS") != "" || os.Getenv("VERIF_C15_ONLY") != ""
 	if cls := os.Getenv("VERIF_C15_CLASS"); cls != "" {
 		var keep []c15Input
 		for _, in := range eps {
 			if strings.Contains(in.Class, cls) {
+				keep = append(keep, in)
+			}
+		}
+		eps, dec = keep, nil
+	}
+	if o := os.Getenv("VERIF_C15_OPTS"); o != "" {
+		filtered = true
+		var keep []c15Input
+		for _, in := range eps {
+			if in.Opts == o {
 				keep = append(keep, in)
 			}
 		}
@@ -980,16 +1235,77 @@ func runC15(e *Env) {
 			mu.Unlock()
 		})
 	}
-	run(split(dec, 16), "dec")
-	run(split(eps, 16), "ep")
+	// the decoder children are CPU-bound, the endpoint children mostly wait for
+	// the scripts' lingering: run both groups at the same time (every child
+	// measures its own heap only)
+	var wg sync.WaitGroup
+	wg.Add(2)
+	go func() { defer wg.Done(); run(split(dec, 16), "dec") }()
+	go func() { defer wg.Done(); run(split(eps, 16), "ep") }()
+	wg.Wait()
 
 	perTarget := map[string]int{}
 	outcomes := map[string]int{}
+	perOpts := map[string]int{}             // endpoint results per (target, option set)
+	fieldOut := map[string]map[string]int{} // field@history -> outcome counts
+	holdOut := map[string]map[string]int{}  // stream-end class -> outcome counts
+	bump := func(m map[string]map[string]int, k, what string) {
+		if m[k] == nil {
+			m[k] = map[string]int{}
+		}
+		m[k][what]++
+	}
+	optName := func(o string) string {
+		if o == "" {
+			return "lib"
+		}
+		return o
+	}
 	for id, res := range allRes {
 		in := byID[id]
 		e.R.Eval()
-		e.R.Distinct(fmt.Sprintf("%s:%x:%s", in.Target, vk.HashStr(in.Hex+"|"+in.Data), in.Class))
+		e.R.Distinct(fmt.Sprintf("%s[%s%s%s]:%x:%s", in.Target, in.Opts, in.Hold, in.Pre, vk.HashStr(in.Hex+"|"+in.Data+"|"+in.Hex2), in.Class))
 		perTarget[in.Target]++
+		if strings.HasPrefix(in.Target, "ep-") {
+			perOpts[in.Target+"["+optName(in.Opts)+"]"]++
+			if i := strings.Index(in.Class, "field:"); i >= 0 && (strings.Contains(in.Class, "@")) {
+				f := in.Class[i+len("field:"):]
+				if j := strings.Index(f, ":"); j >= 0 {
+					f = f[:j]
+				}
+				k := f + "[" + optName(in.Opts) + "]"
+				bump(fieldOut, k, "cases")
+				switch {
+				case res.TimedOut:
+					bump(fieldOut, k, "timed_out")
+				case res.ReturnedNil:
+					bump(fieldOut, k, "returned_nil")
+				default:
+					bump(fieldOut, k, "returned_error")
+				}
+				if res.ChunkStored {
+					bump(fieldOut, k, "chunk_stored_before_second_part")
+				}
+				if res.SawChunk0 {
+					bump(fieldOut, k, "receiver_reported_chunk0_complete")
+				}
+			}
+			if in.Hold != "" {
+				p := strings.SplitN(in.Class, ":", 3)
+				k := p[0] + ":" + p[1] + "[" + optName(in.Opts) + "]"
+				bump(holdOut, k, "cases")
+				switch {
+				case res.TimedOut && res.HeldOpen:
+					bump(holdOut, k, "not_returned_while_other_streams_open")
+				case res.TimedOut:
+					bump(holdOut, k, "not_returned_after_close")
+				case res.ReturnedBeforeClose:
+					bump(holdOut, k, "returned_while_other_streams_open")
+				default:
+					bump(holdOut, k, "returned_after_close")
+				}
+			}
+		}
 		if strings.HasPrefix(res.Err, "SETUP:") {
 			e.R.Inconcl(id + ": " + res.Err)
 			continue
@@ -1019,7 +1335,11 @@ func runC15(e *Env) {
 				e.R.Inconcl(id + ": endpoint did not return within 10 s but the canary case did not either (machine stalled)")
 				continue
 			}
-			e.R.Violate(c15Key(in, "hang"), fmt.Sprintf("%s had not returned 10 s after its input had ended and the peer had closed the connection (class %s; a fresh valid exchange completed meanwhile)", in.Target, in.Class), in, map[string]any{"goroutines": res.Dump})
+			if res.HeldOpen {
+				e.R.Violate(c15Key(in, "hang"), fmt.Sprintf("%s (option set %s) had not returned 10 s after one of its streams had ended inside a record while the peer kept the other streams open (class %s; a fresh valid exchange completed meanwhile)", in.Target, optName(in.Opts), in.Class), in, map[string]any{"goroutines": res.Dump})
+				continue
+			}
+			e.R.Violate(c15Key(in, "hang"), fmt.Sprintf("%s (option set %s) had not returned 10 s after its input had ended and the peer had closed the connection (class %s; a fresh valid exchange completed meanwhile)", in.Target, optName(in.Opts), in.Class), in, map[string]any{"goroutines": res.Dump})
 		case res.AllocB > limit:
 			outcomes["alloc"]++
 			e.R.Violate(c15Key(in, "alloc"), fmt.Sprintf("%s allocated %d bytes for %d input bytes (class %s; bound %d)", in.Target, res.AllocB, res.InputLen, in.Class, limit), in, map[string]any{"err": res.Err})
@@ -1046,7 +1366,40 @@ func runC15(e *Env) {
 		outcomes["process-died"]++
 		e.R.Violate(c15Key(in, "crash"), fmt.Sprintf("the process died while %s handled input class %s", in.Target, in.Class), in, map[string]any{"child_output": tail})
 	}
+	if os.Getenv("VERIF_C15_DUMP") != "" {
+		var dump []map[string]any
+		for _, in := range eps {
+			if res, ok := allRes[in.ID]; ok {
+				dump = append(dump, map[string]any{"class": in.Class, "opts": in.Opts, "hold": in.Hold, "err": res.Err, "nil": res.ReturnedNil, "timed_out": res.TimedOut, "before_close": res.ReturnedBeforeClose, "stored": res.ChunkStored, "chunk0": res.SawChunk0, "alloc": res.AllocB})
+			}
+		}
+		e.R.SetExtra("dump", dump)
+	}
 	e.R.SetExtra("inputs_per_target", perTarget)
+	e.R.SetExtra("endpoint_results_per_option_set", perOpts)
+	e.R.SetExtra("field_class_outcomes", fieldOut)
+	e.R.SetExtra("stream_end_outcomes", holdOut)
+	if !filtered {
+		for _, k := range []string{"ep-recv[lib]", "ep-recv[app]", "ep-send[lib]", "ep-send[app]", "ep-recv[app-mc]", "ep-send[app-mc]"} {
+			e.R.Require(perOpts[k] >= 40, fmt.Sprintf("only %d endpoint results for %s", perOpts[k], k))
+		}
+		e.R.Require(perOpts["ep-recv[bare]"] >= 10, fmt.Sprintf("only %d endpoint results for ep-recv[bare]", perOpts["ep-recv[bare]"]))
+		for _, o := range []string{"lib", "app"} {
+			k := "filebegin-hash-alg@chunk-then-resume-request[" + o + "]"
+			e.R.Require(fieldOut[k]["chunk_stored_before_second_part"] >= 8 && fieldOut[k]["receiver_reported_chunk0_complete"] >= 1,
+				fmt.Sprintf("history FileBegin -> chunk -> ResumeRequest not reached under %s options: %v", o, fieldOut[k]))
+			k = "filebegin-hash-alg@prior-session-sidecar[" + o + "]"
+			e.R.Require(fieldOut[k]["cases"] >= 8 && fieldOut[k]["receiver_reported_chunk0_complete"] >= 1,
+				fmt.Sprintf("history earlier session's sidecar -> FileBegin not reached under %s options: %v", o, fieldOut[k]))
+			for _, f := range []string{"filedone-ok-byte@after-fileend", "resumeinfo@after-resume-request", "record-type@after-filebegin"} {
+				e.R.Require(fieldOut[f+"["+o+"]"]["cases"] >= 3, fmt.Sprintf("field class %s ran %d times under %s options", f, fieldOut[f+"["+o+"]"]["cases"], o))
+			}
+			k = "data-open:trunc-in-payload[" + o + "]"
+			e.R.Require(holdOut[k]["cases"] >= 8, fmt.Sprintf("stream-end class %s: %v", k, holdOut[k]))
+			k = "acks-open:trunc-in-record[" + o + "]"
+			e.R.Require(holdOut[k]["cases"] >= 2, fmt.Sprintf("stream-end class %s: %v", k, holdOut[k]))
+		}
+	}
 	e.R.SetExtra("outcomes", outcomes)
 	hostileOut := map[string]any{}
 	for _, in := range eps {
